@@ -24,18 +24,28 @@ kf_instances = [
     dict(ANY('h_auth_any', 'kf_auth_any20', 20, 1, QT, 1), known_finding='stun_no_integrity'),
     dict(S('kf_prio_pair_full', 'h_prio_pair', (1, 0, 0, 0), bound='both candidate priorities symbolic in 0..2^32-1'), known_finding='pair_priority_wraps'),
 ]
+HD_MODELS = ['../C14/stun_pre.c', 'qt_core.c', 'qt_list.c', '../C14/bytes_models.c', '../C14/stun_models.c', 'hd_models.c']
+def HD(name, n, tiers=QT):
+    return dict(name=name, entry='h_handle', unwind=24, timeout_s=300, mem_gb=4, model_loop_bound=44, tiers=tiers, cdefs={'QB_CAP': 40, 'VP_CFG0': n},
+                bound='datagram of %d arbitrary bytes (type, length field, cookie, id symbolic); local/remote password each empty or 2 arbitrary ASCII characters; 0..1 pending transaction with arbitrary id on the receiving or another transport' % n)
 SPEC = dict(
     property='C15',
     groups=[
         dict(name='stun', harness='../C14/h_stun.cpp', tus=[], models=MODELS, cand=c14.STUN_CAND, instances=instances),
+        dict(name='handle', harness='h_handle.cpp', tus=[], models=HD_MODELS, cand=c14.STUN_CAND, instances=[HD('hd_key_20', 20), HD('hd_key_24', 24, T)]),
         dict(name='stun_kf', harness='../C14/h_stun.cpp', tus=[], models=MODELS, cand=c14.STUN_CAND, cxxdefs={'VP_DEMONSTRATE_KF': 1}, instances=kf_instances),
     ],
     bounds=['(i) arbitrary datagrams of 20 and 24 bytes (thorough: 28) with valid header length field; fixed-layout datagrams [FP], [MI], [MI,FP], [PRIORITY,MI], [MI,PRIORITY] with symbolic content; key 1..2 symbolic bytes',
+            '(iii) handleDatagram key selection: one datagram of 20 (thorough: 24) arbitrary bytes; local and remote password each empty or 2 arbitrary ASCII characters; 0..1 pending transaction with arbitrary 12-byte id, registered for the receiving or for another transport; no candidate pairs',
             '(ii) candidate type 0..3, component 1..256, local preference 0..65535; pair priorities 0..2^31-1 each (RFC 5245 range)'],
     assumptions=['HMAC-SHA1 / CRC-32 are uninterpreted, functionally consistent functions (cut at QXmppUtils, see C14)',
                  '"verified" = decode itself computed HMAC(key, adjusted prefix) for a MESSAGE-INTEGRITY attribute and did not reject (the comparison itself is pinned by the C14 acc_* instances)',
+                 'hd_key_*: the REAL QXmppIceComponent::handleDatagram and peekType on directly constructed private state (component, QXmppIcePrivate, one-node QMap built by hand); '
+                 'QXmppStunMessage::decode is cut by a recorder that logs the key and returns false (assume-guarantee: what decode guarantees under a non-empty key is auth_*); '
+                 'sender() is a QXmppIceTransport (qobject_cast = identity), datagramReceived() emission is counted, QMapNodeBase::nextNode is modelled for maps of <= 1 node',
                  'QXmppJingleCandidate is cut to {type, component, priority}; QXmppIceTransport::localCandidate answers with the given candidate'],
-    outside=['state machine of QXmppIceComponent::handleDatagram / transactionFinished (sender(), timers, sockets) and the liveness half of C15',
-             'key selection in handleDatagram: a datagram that matches a pending transaction id is decoded with an EMPTY key (responses are not authenticated at all) - outside decode()',
+    outside=['what handleDatagram does AFTER a successful decode (pair creation, responses, nomination), transactionFinished, timers, sockets, and the liveness half of C15',
+             'a datagram whose transaction id matches a pending transaction of the same transport is decoded with an EMPTY key by design of the code (responses to own requests are not authenticated): excluded from the hd_key_* claim',
+             'STUN types with method bits >= 0x80 (type & 0xFE00 != 0): only "key is non-empty and is one of the two passwords" is asserted there, because the code selects by type & 0xFF00 while the class bit is 0x0100',
              'candidate priorities >= 2^31 (outside RFC 5245): CandidatePair::priority computes 2*max(G,D) in 32 bits and wraps (known finding pair_priority_wraps, demonstrated when listed)'],
 )
